@@ -287,12 +287,33 @@ fn rec_out(head: &[u8], seq_len: usize) -> u64 {
 }
 
 /// `Y <fmt> <T> <Q> <cap> <stop|-> <inputhex>`
+///
+/// Variants `..5` (`parallel_records`) and `..6` (`parallel_fasta` / `parallel_fastq`) make the worker of the FIRST record
+/// sleep for 1.2 s, so that a reader error in a later set reaches the consumer before the result of the first set: the
+/// error must then be returned even if the consumer closure would stop early at a record of the late set.  Because the
+/// ordering rests on time, an early exit is only reported if it is observed three times in a row.
 pub fn run_y(line: &str) -> String {
     let t: Vec<&str> = line.trim().split(' ').collect();
     if t.len() != 7 {
         return "bad-case".to_string();
     }
-    let fmt = t[1].to_string();
+    if t[1].len() == 3 && (t[1].ends_with('5') || t[1].ends_with('6')) {
+        let eff = if t[1].ends_with('5') { format!("{}4", &t[1][..2]) } else { t[1][..2].to_string() };
+        let mut last = String::new();
+        for _ in 0..3 {
+            last = run_y_inner(&t, &eff, true);
+            if !last.contains(" STOP SEQ:") {
+                break;
+            }
+        }
+        return last;
+    }
+    run_y_inner(&t, t[1], false)
+}
+
+fn run_y_inner(t: &[&str], variant: &str, slow: bool) -> String {
+    let slow_flag = Arc::new(std::sync::atomic::AtomicBool::new(slow));
+    let fmt = variant.to_string();
     let nt: u32 = t[2].parse().unwrap_or(1);
     let q: usize = t[3].parse().unwrap_or(1);
     let cap: usize = t[4].parse().unwrap_or(64);
@@ -419,6 +440,7 @@ pub fn run_y(line: &str) -> String {
                     nt,
                     q,
                     |rec: fasta::RefRecord, out: &mut CountedOut| {
+                        slow_first(&slow_flag);
                         out.0 = rec_out(rec.head(), rec.owned_seq().len());
                     },
                     |rec: fasta::RefRecord, out: &CountedOut| {
@@ -446,6 +468,7 @@ pub fn run_y(line: &str) -> String {
                     nt,
                     q,
                     |rec: fastq::RefRecord, out: &mut CountedOut| {
+                        slow_first(&slow_flag);
                         out.0 = rec_out(rec.head(), rec.seq().len());
                     },
                     |rec: fastq::RefRecord, out: &CountedOut| {
@@ -473,6 +496,7 @@ pub fn run_y(line: &str) -> String {
                     nt,
                     q,
                     |rec, out: &mut CountedOut| {
+                        slow_first(&slow_flag);
                         out.0 = rec_out(rec.head(), rec.owned_seq().len());
                     },
                     |rec, out| {
@@ -500,6 +524,7 @@ pub fn run_y(line: &str) -> String {
                     nt,
                     q,
                     |rec, out: &mut CountedOut| {
+                        slow_first(&slow_flag);
                         out.0 = rec_out(rec.head(), rec.seq().len());
                     },
                     |rec, out| {
@@ -536,6 +561,13 @@ pub fn run_y(line: &str) -> String {
         mb,
         grows2.load(std::sync::atomic::Ordering::SeqCst)
     )
+}
+
+/// the first caller sleeps (variants `..5` / `..6`)
+fn slow_first(flag: &std::sync::atomic::AtomicBool) {
+    if flag.swap(false, std::sync::atomic::Ordering::SeqCst) {
+        std::thread::sleep(Duration::from_millis(1200));
+    }
 }
 
 /// counts the growth requests a reader makes to its policy
